@@ -82,7 +82,32 @@ def check_dofs(ctx, mc, rec, basis=None):
     check_doflocs(ctx, mc, rec, elem, basis)
     check_split_indices(ctx, mc, rec, elem, basis)
     check_offset(ctx, mc, rec, elem, basis)
+    check_dg_wrapper(ctx, mc, rec, elem, basis)
     return basis
+
+
+def check_dg_wrapper(ctx, mc, rec, elem, basis):
+    """ElementDG(e): every local function of e becomes a cell-interior DOF - as many as e has on this reference cell
+    (vertices, edges, facets of THIS cell kind, interior), at e's own locations, in e's order."""
+    if not rec.name.startswith("DG(") or not hasattr(elem, "elem"):
+        return
+    inner = elem.elem
+    rd = mc.mesh.elem.refdom
+    dim = mc.dim
+    want = (inner.nodal_dofs * rd.nnodes + (inner.edge_dofs * rd.nedges if dim == 3 else 0)
+            + (inner.facet_dofs * rd.nfacets if dim >= 2 else 0) + inner.interior_dofs)
+    if dim == 1 and getattr(inner, "facet_dofs", 0):
+        return
+    got = int(elem.interior_dofs)
+    rows = int(np.asarray(basis.dofs.element_dofs).shape[0])
+    li, lo = np.asarray(getattr(inner, "doflocs", np.zeros((0, 0))), dtype=float), np.asarray(getattr(elem, "doflocs", np.zeros((0, 0))), dtype=float)
+    same_locs = li.shape == lo.shape and np.allclose(np.nan_to_num(li), np.nan_to_num(lo)) if li.size else True
+    ctx.check("row-count", got == want and rows == want and int(basis.Nbfun) == want and same_locs,
+              mech="dg-wrapper-does-not-carry-all-local-functions-of-the-wrapped-element", elem=rec.name, interior_dofs=got, rows=rows,
+              Nbfun=int(basis.Nbfun), wrapped=want, locations_equal=bool(same_locs), mesh=type(mc.mesh).__name__)
+    ctx.reached("dg-wrapper-counted")
+    if inner.facet_dofs and mc.kind in ("quad", "hex"):
+        ctx.reached("dg-wrapper-of-facet-dofs-on-tensor-cells")
 
 
 def check_offset(ctx, mc, rec, elem, basis):
@@ -745,4 +770,5 @@ FAMILIES.append(Family("periodic", periodic_case, 12, 240))
 FAMILIES.append(Family("registry", registry_complete, 1, 1))
 REQUIRED_REACH = ["rectangular-assembly", "periodic-topology", "composite-doflocs", "synthetic-dof-counts", "nested-wrappers",
                   "facet-basis-sparsity", "dof-locations-on-entities", "composite-basis-equal-dofnum",
-                  "composite-basis-of-facet-bases", "derived-mesh", "derived-from-a-parent-in-use", "split-indices", "numbering-with-offset"]
+                  "composite-basis-of-facet-bases", "derived-mesh", "derived-from-a-parent-in-use", "split-indices", "numbering-with-offset", "dg-wrapper-counted",
+                  "dg-wrapper-of-facet-dofs-on-tensor-cells"]
